@@ -127,6 +127,27 @@ Theorem C05_multT_rowrep_unscale :
 Proof. exact multT_rowrep_unscale. Qed.
 Print Assumptions C05_multT_rowrep_unscale.
 
+(* the unscaled branches of getBasisInverseColReal and getBasisInverseTimesVecReal are right ([wf_lp]: every column has
+   numRows entries; the row basis has numCols entries) *)
+Theorem C05_binv_col_rowrep_plain :
+  forall (ps : lpmat) (ids : list bid) (r c : list Z) (coSolve : vec -> vec) (k : nat),
+    ids_ok ps ids -> wf_lp ps = true -> length ids = lm_ncols ps ->
+    (forall b, length b = lm_ncols ps -> veq (vmul (coSolve b) (rb_matrix ps ids)) b) ->
+    (k < lm_rows ps)%nat ->
+    veq (mulv (basis_matrix ps (bind_rowrep (lm_rows ps) (lm_ncols ps) ids)) (binv_col_rowrep coSolve false r c ps ids k))
+        (unit_vec (lm_rows ps) k).
+Proof. exact binv_col_rowrep_plain. Qed.
+Print Assumptions C05_binv_col_rowrep_plain.
+
+Theorem C05_binv_times_vec_rowrep_plain :
+  forall (ps : lpmat) (ids : list bid) (r c : list Z) (coSolve : vec -> vec) (v : vec),
+    ids_ok ps ids -> wf_lp ps = true -> length ids = lm_ncols ps ->
+    (forall b, length b = lm_ncols ps -> veq (vmul (coSolve b) (rb_matrix ps ids)) b) ->
+    length v = lm_rows ps ->
+    veq (mulv (basis_matrix ps (bind_rowrep (lm_rows ps) (lm_ncols ps) ids)) (binv_times_vec_rowrep coSolve false r c ps ids v)) v.
+Proof. exact binv_times_vec_rowrep_plain. Qed.
+Print Assumptions C05_binv_times_vec_rowrep_plain.
+
 (* REFUTED: getBasisInverseColReal, ROW representation, scaled LP, unscale = true: although the inner solve is exact for
    the row basis of the stored LP, the returned vector is not the inverse column of the user's basis matrix *)
 Theorem C05_binv_col_rowrep_scaled_refuted :
@@ -163,6 +184,47 @@ Theorem C05_mult_rowrep_refuted :
     ~ veq (mult_rowrep p ids x) (mulv (basis_matrix p (bind_rowrep (lm_rows p) (lm_ncols p) ids)) x).
 Proof. exists wc_p, wc_ids, [1; 1]. exact (conj eq_refl mult_rowrep_wrong). Qed.
 Print Assumptions C05_mult_rowrep_refuted.
+
+(* ---- the three refuted branches as repaired by /verif/proposed_fixes/C05-*.diff return the exact answer ---- *)
+Theorem C05_binv_col_rowrep_fixed_unscale :
+  forall (p : lpmat) (ids : list bid) (r c : list Z) (coSolve : vec -> vec) (k : nat),
+    ids_ok p ids -> wf_lp p = true -> length ids = lm_ncols p ->
+    (forall b, length b = lm_ncols p -> veq (vmul (coSolve b) (rb_matrix (scale r c p) ids)) b) ->
+    (k < lm_rows p)%nat ->
+    veq (mulv (basis_matrix p (bind_rowrep (lm_rows p) (lm_ncols p) ids))
+              (binv_col_rowrep_fixed coSolve true r c (scale r c p) ids k))
+        (unit_vec (lm_rows p) k).
+Proof. exact binv_col_rowrep_fixed_unscale. Qed.
+Print Assumptions C05_binv_col_rowrep_fixed_unscale.
+
+Theorem C05_binv_times_vec_rowrep_fixed_unscale :
+  forall (p : lpmat) (ids : list bid) (r c : list Z) (coSolve : vec -> vec) (v : vec),
+    ids_ok p ids -> wf_lp p = true -> length ids = lm_ncols p ->
+    (forall b, length b = lm_ncols p -> veq (vmul (coSolve b) (rb_matrix (scale r c p) ids)) b) ->
+    length v = lm_rows p ->
+    veq (mulv (basis_matrix p (bind_rowrep (lm_rows p) (lm_ncols p) ids))
+              (binv_times_vec_rowrep_fixed coSolve true r c (scale r c p) ids v)) v.
+Proof. exact binv_times_vec_rowrep_fixed_unscale. Qed.
+Print Assumptions C05_binv_times_vec_rowrep_fixed_unscale.
+
+Theorem C05_mult_rowrep_fixed_plain :
+  forall (r c : list Z) (ps : lpmat) (ids : list bid) (x : vec),
+    veq (mult_rowrep_fixed false r c ps ids x) (mulv (basis_matrix ps (bind_rowrep (lm_rows ps) (lm_ncols ps) ids)) x).
+Proof. exact mult_rowrep_fixed_plain. Qed.
+Print Assumptions C05_mult_rowrep_fixed_plain.
+
+Theorem C05_mult_rowrep_fixed_unscale :
+  forall (r c : list Z) (p : lpmat) (ids : list bid) (x : vec),
+    veq (mult_rowrep_fixed true r c (scale r c p) ids x) (mulv (basis_matrix p (bind_rowrep (lm_rows p) (lm_ncols p) ids)) x).
+Proof. exact mult_rowrep_fixed_unscale. Qed.
+Print Assumptions C05_mult_rowrep_fixed_unscale.
+
+(* on the branches the patches do not touch the repaired models are the shipped ones *)
+Example C05_fixed_agrees_on_plain_branches :
+  forall coSolve r c ps ids k v,
+    binv_col_rowrep_fixed coSolve false r c ps ids k = binv_col_rowrep coSolve false r c ps ids k /\
+    binv_times_vec_rowrep_fixed coSolve false r c ps ids v = binv_times_vec_rowrep coSolve false r c ps ids v.
+Proof. intros. split; reflexivity. Qed.
 
 (* ---- the checkers that judge every answer of the implementation ---- *)
 Theorem C05_check_binv_col_sound :
